@@ -18,13 +18,18 @@ def keyfn(r):
         variant = err.split(":")[1].strip().split("(")[0] if ":" in err else "?"
         kind = "raises" if "raised" in err else ("wrong-verdict" if "= True" in err or "although" in err else "wrong-replacement")
         return ("just/%s/%s" % (variant, kind), err[:400])
+    if n == "just_tar":
+        field = err.split("(<")[1].split(">")[0] if "(<" in err else "?"
+        kind = "raises" if " raised " in err else ("wrong-verdict" if "= True" in err or "although" in err else
+                                                   ("invalid-replacement" if "not a derivation tree" in err else "wrong-replacement"))
+        return ("just_tar/%s/%s" % (field, kind), err[:400])
     return ("count/closed/" + ("raises" if "raised" in err else "wrong-verdict"), err[:400])
 
 
 def main(tier, only):
     run = common.Run("C20", tier, "other", [common.src_range("src/isla/isla_predicates.py", f) for f in
                      ["count", "crop", "just", "octal_to_dec", "octal_to_dec_concrete_octal", "octal_to_dec_concrete_decimal", "octal_to_dec_both_trees"]] +
-                     [common.src_range("src/isla_formalizations/tar.py", "octal_to_decimal_tar")])
+                     [common.src_range("src/isla_formalizations/tar.py", f) for f in ["octal_to_decimal_tar", "mk_tar_parser", "TarParser.parse_file_name", "TarParser.parse_linked_file_name"]])
     ndig, nch, wmax, cl, to = (2, 3, 5, 6, 240) if tier == "quick" else (3, 4, 7, 8, 2400)
     env = {"VERIF_NDIG": str(ndig), "VERIF_NCH": str(nch), "VERIF_WMAX": str(wmax), "VERIF_CL": str(cl)}
     cfgs = [dict(tag="", env=env, only=["count_closed"], timeout=to)]
@@ -32,7 +37,11 @@ def main(tier, only):
         cfgs.append(dict(tag="first%d" % d, env=dict(env, VERIF_FIRSTDIGIT=str(d)), only=["octal"], timeout=to))
     for v in range(6):
         cfgs.append(dict(tag="variant%d" % v, env=dict(env, VERIF_VARIANT=str(v)), only=["just"], timeout=to))
-    run.bounds = dict(octal="all octal numerals of <= %d digits x all decimal numerals of <= %d digits x 3 argument modes (both concrete / either side a variable)" % (ndig, ndig),
+    for k in range(5):
+        cfgs.append(dict(tag="tar-field%d" % k, env=dict(env, VERIF_TARKIND=str(k)), only=["just_tar"], timeout=to))
+    run.bounds = dict(tar_fields="ljust_crop_tar / rjust_crop_tar on <file_name>, <linked_file_name>, <uname>, <checksum>, <file_size> trees of the TAR grammar: text part of 0..3 "
+                                 "characters or field width -3..+3, followed by 0/1/2 NULs or the number of NULs that fills the field exactly / one less / one more",
+                      octal="all octal numerals of <= %d digits x all decimal numerals of <= %d digits x 3 argument modes (both concrete / either side a variable)" % (ndig, ndig),
                       just="all strings of <= %d characters over {a, b, 0, space} x widths 0..%d x 4 fill characters x 6 predicates x width as int/tree" % (nch, wmax),
                       count="all closed trees decodable from <= %d choices x 3 needles (two of them recursive) x targets 0..5 / numeric variable" % cl)
     run.engines = dict(crosshair="crosshair-tool 0.0.110 on z3 4.11.2")
